@@ -173,8 +173,6 @@ func (a *inMemoryAdapter) DisconnectSockets(opts *BroadcastOptions, close bool) 
 func (a *inMemoryAdapter) apply(opts *BroadcastOptions, callback func(socket Socket)) {
 	a.mu.Lock()
 
-	exceptSids := a.computeExceptSids(opts.Except)
-
 	// If a room was specificed in opts.Rooms,
 	// we only use sockets in those rooms.
 	// Otherwise (within else), any socket will be used.
@@ -187,7 +185,7 @@ func (a *inMemoryAdapter) apply(opts *BroadcastOptions, callback func(socket Soc
 			}
 
 			r.Each(func(sid SocketID) bool {
-				if ids.Contains(sid) || exceptSids.Contains(sid) {
+				if ids.Contains(sid) || a.isExcepted(sid, opts.Except) {
 					return false
 				}
 				socket, ok := a.sockets.Get(sid)
@@ -204,7 +202,7 @@ func (a *inMemoryAdapter) apply(opts *BroadcastOptions, callback func(socket Soc
 		})
 	} else {
 		for sid := range a.sids {
-			if exceptSids.Contains(sid) {
+			if a.isExcepted(sid, opts.Except) {
 				continue
 			}
 			socket, ok := a.sockets.Get(sid)
@@ -219,22 +217,24 @@ func (a *inMemoryAdapter) apply(opts *BroadcastOptions, callback func(socket Soc
 	a.mu.Unlock()
 }
 
-// Beware that the return value 'exceptSids' is thread unsafe.
-func (a *inMemoryAdapter) computeExceptSids(exceptRooms mapset.Set[Room]) (exceptSids mapset.Set[SocketID]) {
-	exceptSids = mapset.NewThreadUnsafeSet[SocketID]()
-
-	if exceptRooms.Cardinality() > 0 {
-		exceptRooms.Each(func(room Room) bool {
-			r, ok := a.rooms[room]
-			if ok {
-				r.Each(func(sid SocketID) bool {
-					exceptSids.Add(sid)
-					return false
-				})
-			}
-			return false
-		})
+// Reports whether the socket is in one of the excepted rooms right now. `a.mu` must be held.
+//
+// This is evaluated for each socket when its turn comes, not once before the sockets are walked: `apply` releases
+// the mutex around every callback, so memberships can change meanwhile. A socket that joins an excepted room and
+// then a target room while `apply` is running would otherwise be served although there was no moment at which it
+// was in a target room without being in an excepted room.
+func (a *inMemoryAdapter) isExcepted(sid SocketID, exceptRooms mapset.Set[Room]) (excepted bool) {
+	if exceptRooms.Cardinality() == 0 {
+		return false
 	}
+	rooms, ok := a.sids[sid]
+	if !ok {
+		return false
+	}
+	exceptRooms.Each(func(room Room) bool {
+		excepted = rooms.Contains(room)
+		return excepted
+	})
 	return
 }
 
